@@ -584,6 +584,17 @@ def setup(opts):
               (real_signal.signal, FSignal("signal").signal)]
     W.unmodelled = []
     W.all, W.parent, W.me = [], None, FSelf("MainProcess", MANAGER_PID, None)
+    # ... in process_manager AND in every other module of taskiq.cli.worker that is loaded by now: the action classes or
+    # the manager's helpers may live in a module of their own (moved code must meet the same fake environment)
+    for mod in [m for n, m in sorted(sys.modules.items())
+                if m is not None and m is not pm and n.startswith("taskiq.cli.worker.")]:
+        for name, v in list(vars(mod).items()):
+            if name.startswith("__"):
+                continue
+            for real, fake in by_id:
+                if v is real or (callable(v) and not isinstance(v, type) and v == real):
+                    setattr(mod, name, fake)
+                    break
     for name, v in list(vars(pm).items()):
         if name.startswith("__"):
             continue
